@@ -140,17 +140,24 @@ Definition x_wf (cl : cluster) (r : resource) (revs : list rev) : bool :=
 
 (* one notification delivered through the real handler and the real lbc.sync *)
 Record ev := { ev_kind : kind; ev_ns : string; ev_name : string; ev_op : op; ev_relevant : bool;
-               ev_regen : bool; ev_stale : bool }.
+               ev_regen : bool; ev_stale : bool;
+               ev_dep : bool (* the extended resource was observed to depend on the object (create*Ex level) *) }.
 
 (* S at event level, on the implementation's outputs only: after the event, regenerating the resource
    from the stores does not change its configuration file *)
-Definition ev_spec_ok (evs : list ev) : bool := forallb (fun x => negb (ev_stale x)) evs.
+Definition ev_ok (x : ev) : bool :=
+  negb (ev_stale x) &&
+  (* ... and a notification about an object the resource depends on, unless the handler's update filter dropped
+     it, makes the controller write the resource's configuration again *)
+  (negb (ev_dep x) || ev_regen x || match ev_op x with Update => negb (ev_relevant x) | _ => false end).
+
+Definition ev_spec_ok (evs : list ev) : bool := forallb ev_ok evs.
 
 Definition first_stale (evs : list ev) : Z :=
   (fix go (l : list ev) (i : Z) : Z :=
      match l with
      | [] => (-1)%Z
-     | x :: r => if ev_stale x then i else go r (i + 1)%Z
+     | x :: r => if ev_ok x then go r (i + 1)%Z else i
      end) evs 0%Z.
 
 (* X at event level: the resource is regenerated exactly when the model says the event reaches it *)
